@@ -23,7 +23,7 @@ ASSUMPTIONS = ["uses the solver's own reported reachability probabilities, as th
 TIMEOUT = 1800
 
 PATTERNS = [(kind, pat) for kind in (PR, P1) for L in range(1, 6) for pat in itertools.product([True, False], repeat=L)]
-TABLE = [("G-CYC", 300), ("G-ACY", 300), ("G-LEX", 150), ("G-TIE", 100), ("G-SLOW", 60), ("G-TINYB", 400), ("G-ACYNF", 200), ("G-CYCNF", 200), ("G-INIT0NF", 100), ("G-DUPL", 200), ("G-MIX", 500), ("G-SMALLX", 300), ("G-TINY", 200)]
+TABLE = [("G-CYC", 300), ("G-ACY", 300), ("G-LEX", 150), ("G-TIE", 100), ("G-SLOW", 60), ("G-TINYB", 400), ("G-ACYNF", 200), ("G-CYCNF", 200), ("G-INIT0NF", 100), ("G-DUPL", 200), ("G-MIX", 500), ("G-SMALLX", 300), ("G-TINY", 200), ("G-GAP", 150), ("G-GAPLOOP", 150), ("G-DIGIT", 200)]
 
 
 def plan(tier, seed):
